@@ -598,10 +598,14 @@ async def process_changing_cause(
             )
             state = state.with_outcomes(outcomes)
             state.store(body=cause.body, patch=cause.patch, storage=storage)
-            progression.deliver_results(outcomes=outcomes, patch=cause.patch)
+
+            # Remember the finished resuming handlers before anything else can fail: the delivery
+            # of the results copies them and raises for a result that cannot be copied; the handler
+            # has run to its end nevertheless, and must not run again in this process.
             memory.resumed_handlers.update(
                 handler.id for handler in cause_handlers
                 if handler.initial and handler.id in outcomes and outcomes[handler.id].final)
+            progression.deliver_results(outcomes=outcomes, patch=cause.patch)
 
             if state.done:
                 counters = state.counts  # calculate only once
